@@ -380,6 +380,9 @@ MYTH_CTX_CALLBACK void myth_create_1(void *arg1,void *arg2,void *arg3) {
    create
    -------- */
 
+/* largest stack the internal allocator can serve (its last size class) */
+#define MYTH_STACK_SIZE_MAX ((size_t)1 << (FREE_LIST_NUM - 1))
+
 static inline int myth_create_ex_body(myth_thread_t * id,
 				      myth_thread_attr_t * attr,
 				      myth_func_t func, void *arg) {
@@ -395,6 +398,8 @@ static inline int myth_create_ex_body(myth_thread_t * id,
   size_t custom_data_size = (attr ? attr->custom_data_size : 0);
   void * custom_data      = (attr ? attr->custom_data : 0);
   int child_first         = (attr ? attr->child_first : 1);
+  /* an attribute filled in directly (or through pthread_attr_t) */
+  if (stack_size > MYTH_STACK_SIZE_MAX) return EINVAL;
   myth_running_env_t env = myth_get_current_env();
   //myth_log_add(env,MYTH_LOG_INT);
   // Allocate new thread descriptor
@@ -943,6 +948,7 @@ static inline int myth_thread_attr_getstacksize_body(const myth_thread_attr_t *a
 
 static inline int myth_thread_attr_setstacksize_body(myth_thread_attr_t *attr,
 				       size_t stacksize) {
+  if (stacksize > MYTH_STACK_SIZE_MAX) return EINVAL;
   attr->stacksize = stacksize;
   return 0;
 }
@@ -956,6 +962,7 @@ static inline int myth_thread_attr_getstack_body(const myth_thread_attr_t *attr,
 
 static inline int myth_thread_attr_setstack_body(myth_thread_attr_t *attr,
 				   void *stackaddr, size_t stacksize) {
+  if (stacksize > MYTH_STACK_SIZE_MAX) return EINVAL;
   attr->stackaddr = stackaddr;
   attr->stacksize = stacksize;
   return 0;
